@@ -20,19 +20,27 @@ Fixpoint assoc (tab : list (string * list N)) (op : string) : option (list N) :=
 Definition bit_of (tab : list (string * list N)) (op : string) : N :=
   match assoc tab op with Some [b] => b | _ => 999%N end.
 
+(* OP_recurse names its bit twice (cleared, then set when pv) *)
+Definition bit_of2 (tab : list (string * list N)) (op : string) : N :=
+  match assoc tab op with Some [b; b'] => if (b =? b')%N then b else 999%N | _ => 999%N end.
+
 (* evaluated here so that the extracted model does not carry Coq strings *)
 Definition vm_b_f32 : N := Eval vm_compute in bit_of vm_flag_tests "OP_f32".
 Definition vm_b_f64 : N := Eval vm_compute in bit_of vm_flag_tests "OP_f64".
 Definition vm_b_map_write_key : N := Eval vm_compute in bit_of vm_flag_tests "OP_map_write_key".
 Definition vm_b_empty_arr : N := Eval vm_compute in bit_of vm_flag_tests "OP_empty_arr".
 Definition vm_b_empty_obj : N := Eval vm_compute in bit_of vm_flag_tests "OP_empty_obj".
-Definition vm_b_recurse : N := Eval vm_compute in bit_of vm_flag_tests "OP_recurse".
+Definition vm_b_recurse : N := Eval vm_compute in bit_of2 vm_flag_tests "OP_recurse".
+Definition vm_b_eface : N := Eval vm_compute in bit_of vm_flag_tests "OP_eface".
+Definition vm_b_iface : N := Eval vm_compute in bit_of vm_flag_tests "OP_iface".
 Definition jit_b_f32 : N := Eval vm_compute in bit_of jit_flag_tests "OP_f32".
 Definition jit_b_f64 : N := Eval vm_compute in bit_of jit_flag_tests "OP_f64".
 Definition jit_b_map_write_key : N := Eval vm_compute in bit_of jit_flag_tests "OP_map_write_key".
 Definition jit_b_empty_arr : N := Eval vm_compute in bit_of jit_flag_tests "OP_empty_arr".
 Definition jit_b_empty_obj : N := Eval vm_compute in bit_of jit_flag_tests "OP_empty_obj".
-Definition jit_b_recurse : N := Eval vm_compute in bit_of jit_flag_tests "OP_recurse".
+Definition jit_b_recurse : N := Eval vm_compute in bit_of2 jit_flag_tests "OP_recurse".
+Definition jit_b_eface : N := Eval vm_compute in bit_of jit_flag_tests "OP_eface".
+Definition jit_b_iface : N := Eval vm_compute in bit_of jit_flag_tests "OP_iface".
 Definition vm_frames : N := Eval vm_compute in vm_stack_frames.
 Definition jit_frames : N := Eval vm_compute in jit_stack_frames.
 
@@ -48,7 +56,8 @@ Definition prims_vm : prims := {|
   p_quote := quote;
   p_stack := vm_frames;
   b_f32 := vm_b_f32; b_f64 := vm_b_f64; b_map_write_key := vm_b_map_write_key;
-  b_empty_arr := vm_b_empty_arr; b_empty_obj := vm_b_empty_obj; b_recurse := vm_b_recurse |}.
+  b_empty_arr := vm_b_empty_arr; b_empty_obj := vm_b_empty_obj; b_recurse := vm_b_recurse;
+  b_eface := vm_b_eface; b_iface := vm_b_iface |}.
 
 Definition prims_jit : prims := {|
   p_i64toa := IntPrint.i64toa;                                         (* native i64toa (fastint.h) *)
@@ -58,7 +67,8 @@ Definition prims_jit : prims := {|
   p_quote := quote;
   p_stack := jit_frames;
   b_f32 := jit_b_f32; b_f64 := jit_b_f64; b_map_write_key := jit_b_map_write_key;
-  b_empty_arr := jit_b_empty_arr; b_empty_obj := jit_b_empty_obj; b_recurse := jit_b_recurse |}.
+  b_empty_arr := jit_b_empty_arr; b_empty_obj := jit_b_empty_obj; b_recurse := jit_b_recurse;
+  b_eface := jit_b_eface; b_iface := jit_b_iface |}.
 
 (* the hand-written constants of the model are the generated ones *)
 Lemma model_bits_tied :
